@@ -1573,3 +1573,36 @@ func ruleC17QuoteCloseMatches(c *Ctx) {
 	}
 	c.Check(len(why) == 0, "c17.quote-close-matches", "FindArrayIndex", c.P.Pos(f.Pos()), fmt.Sprintf("%d resets of the open-quote state, each after an equality test with the current quote", n), strings.Join(uniq(why), "; "))
 }
+
+func init() { register("C07", ruleC07RegistryFresh) }
+
+// ruleC07RegistryFresh: the CTEs of a WITH are registered in a registry of that statement's own.
+func ruleC07RegistryFresh(c *Ctx) {
+	c.Doc("c07.registry-fresh", "BuildCte registers the common table expressions of a WITH into a map made by that very call (a copy of the enclosing registry), never into the enclosing registry itself: BuildCte also runs for CTE bodies and derived tables, which share the outer registry, so a nested WITH that registered in place would replace an outer CTE (or an input table) of the same name for the rest of the outer query")
+	f := c.theFunc("CTE builder", "*sqlparser.With", "BuildCte")
+	if f == nil {
+		c.Unknown("c07.registry-fresh", "BuildCte", "-", "anchor lost")
+		return
+	}
+	n := 0
+	tb := NewTB()
+	allInstrs(f, func(_ *ssa.BasicBlock, in ssa.Instruction) {
+		mu, ok := in.(*ssa.MapUpdate)
+		if !ok {
+			return
+		}
+		mi, isMI := mu.Value.(*ssa.MakeInterface)
+		if !isMI || !isThunkType(mi.X.Type()) {
+			return
+		}
+		n++
+		t := tb.Of(mu.Map)
+		c.Check(t.Op == "make" && strings.HasPrefix(t.Name, "map"), "c07.registry-fresh", fmt.Sprintf("BuildCte/registration#%d", n), c.P.Pos(mu.Pos()), "the entry goes into a map made by this call", "a CTE is registered into "+t.String()+": the registry of the enclosing statement gains (or loses to) the names of a nested WITH")
+	})
+	if n == 0 {
+		c.Unknown("c07.registry-fresh", "BuildCte", c.P.Pos(f.Pos()), "anchor lost: no registration of a lazy CTE")
+	}
+}
+
+// `x IN (SELECT …)` and comparisons with a scalar subquery read the subquery's value: it must be the nested result itself (C01)
+func init() { register("C01", ruleC07ScopeArg) }
